@@ -6,7 +6,7 @@ From Coq Require Import String List NArith Bool.
 From J5V.lib Require Import Outcome Strcase.
 From J5V.model Require Import J5sAst Desc J5sWalk J5sLink J5sConvert J5sContract J5sValid J5sCorr.
 From J5V.gen Require ImportsGen.
-From J5V.proofs Require Import J5sProofs J5sContractProofs J5sLinkProofs J5sWitnessProofs.
+From J5V.proofs Require Import J5sProofs J5sContractProofs J5sLinkProofs J5sResolveProofs J5sWitnessProofs.
 Import ListNotations.
 Local Open Scope N_scope.
 
@@ -75,6 +75,43 @@ Theorem C02_compile_sound_partial : forall snake camel screaming bd pkg D,
   package_contract snake camel screaming bd pkg D.
 Proof. exact compile_sound. Qed.
 Print Assumptions C02_compile_sound_partial.
+
+(* ---- references: the type a reference resolves to is a well-known implicitly importable type
+   (the table of imports.go), or a declaration with the referenced name in the package that the
+   written prefix denotes by the documented import rule (no prefix / own package; alias; package
+   name without version; full package name; package of an imported file) *)
+Theorem C02_references_follow_import_rule : forall this imports im exports r t,
+  import_map imports [] = Ok im ->
+  resolve (mkEnv this im exports) r = Ok t ->
+  (exists pkg, In (pkg, r_name r, tr_file t) implicit_table /\ tr_pkg t = pkg /\ tr_name t = r_name r /\ tr_enum t = false) \/
+  (exists full ex, denotes this imports (r_pkg r) full /\ exports full = Some ex /\ In t ex /\ tr_name t = r_name r).
+Proof. exact resolve_sound. Qed.
+Print Assumptions C02_references_follow_import_rule.
+
+(* ... every reference of a run of properties, at any depth, resolves, and the file defining its
+   target is among the imports collected for the generated file; collected imports other than
+   the file itself become dependencies *)
+Theorem C02_references_imported : forall snake camel screaming ev ps path io n r,
+  cv_props snake camel screaming ev path io n ps = Ok r ->
+  forall rf, In rf (refs_of_props ps) -> exists t, resolve ev rf = Ok t /\ In (tr_file t) (pr_imports r).
+Proof. intros snake camel screaming ev. exact (proj1 (proj2 (convert_imports snake camel screaming ev))). Qed.
+Print Assumptions C02_references_imported.
+
+Theorem C02_imports_become_dependencies : forall self imps x,
+  In x imps -> x <> self -> In x (deps_of self imps).
+Proof. exact in_deps_of. Qed.
+Print Assumptions C02_imports_become_dependencies.
+
+(* ---- when the relative name of an inline type denotes the declared type (the positive side of
+   the finding below): if no symbol of the generated file, of length >= 2, ends in the name it
+   starts with - i.e. no nested type is named like its root message - then the name
+   Root.Path.Name, written in any message below Root, links to .<package>.Root.Path.Name *)
+Theorem C02_inline_name_resolves_partial : forall syms fpkg scope parts root rest,
+  capture_free syms -> parts = root :: rest -> Forall nodot parts ->
+  In [root] syms -> In parts syms -> starts root scope ->
+  link_name syms fpkg scope (rel_name parts) = Ok (abs_name fpkg parts).
+Proof. exact link_name_inline. Qed.
+Print Assumptions C02_inline_name_resolves_partial.
 
 (* ---- the property at full strength, and its refutation by the faithful model *)
 Definition C02_full_statement : Prop :=
